@@ -15,10 +15,10 @@ import WK.Proofs.C09_WF
     * `c11_reject_*`: a body that differs from the honest one under the same trailer is accepted only
       on a checksum collision; a count mismatch or a row above hw is rejected whatever the checksum;
       a rejected stream leaves the target untouched (validate-then-apply);
-    * FINDING `c11_restored_leo_above_hw`: the statement "nothing above the exported watermark" is
-      FALSE of the model (and of the code): the retention state travels verbatim, so the restored
-      store can recover LEO > hw; `c11_restored_leo_partial` proves it under the missing hypothesis
-      (every retention entry of the source has RetainedMaxSeq ≤ hw).
+    * `c11_restored_leo_le_hw`: nothing above the exported watermark — the restored store recovers
+      LEO ≤ hw whenever the cut is not below the channel's adopted retention boundary (the exporter
+      clamps RetainedMaxSeq, fix d22c43ed1; before it the statement was false, witness
+      `c11_restored_leo_witness_fixed`); `c11_cut_below_retention_boundary` shows the hypothesis is needed.
   D (real code, byte level): re-export equality, restored dump = model, every single-byte flip /
   truncation rejected, CRC-fixed corruptions never partially applied on the reader path.
 -/
@@ -211,17 +211,24 @@ theorem c11_no_partial_apply (C : List ChanRec → Nat) (t : Store) (st : Stream
 example : accept (fun _ => 0) ⟨[⟨1, 0, 0, 1, [], 1, [(1, .row 7 1 2 0 1)]⟩], 0⟩ = true := by decide
 example : accept (fun _ => 0) ⟨[⟨1, 0, 0, 1, [], 2, [(1, .row 7 1 2 0 1)]⟩], 0⟩ = false := by decide
 
-/-! ### the finding: recovered LEO above the exported watermark -/
+/-! ### recovered LEO of the restored store (former finding, repaired by d22c43ed1) -/
 
-/-- FINDING (reproduced on the real code): rows 1..3, HW 2, retention adopted through 1 and trimmed
-    (RetainedMaxSeq = LEO = 3); the export cut at hw 2 carries the retention state verbatim and the
-    restored store recovers LEO 3 > 2 although it holds nothing above seq 2. -/
+/-- the witness of the former finding: rows 1..3, HW 2, retention adopted through 1 and trimmed
+    (RetainedMaxSeq = LEO = 3).  With the clamp in the exporter the restored store recovers LEO 2 = hw. -/
 def findingSrc : Store :=
   run [] [.fetch 1 (some 2) [⟨200, 1, 11, 0, 5⟩, ⟨201, 1, 12, 0, 6⟩, ⟨202, 0, 0, 0, 7⟩], .adopt 1 1, .trim 1 1 0]
 
-theorem c11_restored_leo_above_hw :
-    ∃ t, (exportAll findingSrc [⟨1, 0, 0, 2⟩]).bind (importStream []) = some t ∧ leo t 1 = 3 ∧ hwOf t 1 = 2 ∧
-      rowSeqs t 1 = [2] := by
+theorem c11_restored_leo_witness_fixed :
+    ∃ t, (exportAll findingSrc [⟨1, 0, 0, 2⟩]).bind (importStream []) = some t ∧ leo t 1 = 2 ∧ hwOf t 1 = 2 ∧
+      rowSeqs t 1 = [2] ∧ retMax findingSrc 1 = 3 := by
+  refine ⟨_, rfl, ?_⟩
+  decide
+
+/-- what remains: a cut BELOW the adopted retention boundary (hw 2 < LocalRetentionThroughSeq 3) still
+    restores LEO = LocalRetentionThroughSeq > hw — the hypothesis of `c11_restored_leo_le_hw` is needed -/
+theorem c11_cut_below_retention_boundary :
+    ∃ t, (exportAll (run [] [.fetch 1 (some 3) [⟨200, 0, 0, 0, 5⟩, ⟨201, 0, 0, 0, 6⟩, ⟨202, 0, 0, 0, 7⟩], .adopt 1 3])
+            [⟨1, 0, 0, 2⟩]).bind (importStream []) = some t ∧ leo t 1 = 3 := by
   refine ⟨_, rfl, ?_⟩
   decide
 
@@ -236,11 +243,28 @@ theorem ret_not_in_rowWrites (ch q : Nat) (x : Rec) (c : Nat) (v : Val) : W.put 
   simp only [List.mem_append, List.mem_cons, List.mem_nil_iff, or_false, W.put.injEq, not_or]
   refine ⟨⟨⟨⟨by simp, by simp⟩, ?_⟩, ?_⟩, ?_⟩ <;> (split <;> simp)
 
-/-- `_partial`: under the missing hypothesis — every retention entry of the exported channel has
-    RetainedMaxSeq ≤ hw — the restored store recovers LEO ≤ hw (nothing above the watermark). -/
-theorem c11_restored_leo_partial (s : Store) (c : Cut) (r : ChanRec) (t : Store)
+theorem clampRet_ret (hw : Nat) (e : Key × Val) (c l p m : Nat) (h : clampRet hw e = (.ret c, .ret l p m))
+    (hl : ∀ l0 p0 m0, e = (.ret c, .ret l0 p0 m0) → l0 ≤ hw) : m ≤ hw := by
+  obtain ⟨k, v⟩ := e
+  cases k <;> cases v <;> simp [clampRet] at h
+  next c0 l0 p0 m0 =>
+    have hl0 := hl l0 p0 m0
+    split at h
+    · simp at h
+      obtain ⟨h1, h2, h3, h4⟩ := h
+      subst h1
+      have := hl0 rfl
+      omega
+    · simp at h
+      obtain ⟨h1, h2, h3, h4⟩ := h
+      omega
+
+/-- NOTHING ABOVE THE WATERMARK (now a theorem): if the cut is not below the adopted retention boundary
+    of the channel (LocalRetentionThroughSeq ≤ hw — retention is only adopted through committed
+    messages), the restored store recovers LEO ≤ hw, whatever RetainedMaxSeq the source had. -/
+theorem c11_restored_leo_le_hw (s : Store) (c : Cut) (r : ChanRec) (t : Store)
     (he : exportCh s c = some r) (hi : importStream [] [r] = some t)
-    (hret : ∀ l p m, (Key.ret c.ch, Val.ret l p m) ∈ s → m ≤ c.hw) : leo t c.ch ≤ c.hw := by
+    (hret : ∀ l p m, (Key.ret c.ch, Val.ret l p m) ∈ s → l ≤ c.hw) : leo t c.ch ≤ c.hw := by
   obtain ⟨hch, hhw, _⟩ := c11_export_committed_only s c r he
   unfold leo
   apply Nat.max_le.2
@@ -262,11 +286,6 @@ theorem c11_restored_leo_partial (s : Store) (c : Cut) (r : ChanRec) (t : Store)
     split
     · next l p m hg =>
       have hm := mem_of_get _ _ _ hg
-      have hvalid : streamValid [r] = true := by
-        unfold importStream at hi
-        split at hi
-        · simp at hi
-        · next h => simpa using h
       unfold importStream at hi
       split at hi; · simp at hi
       split at hi; · simp at hi
@@ -279,18 +298,21 @@ theorem c11_restored_leo_partial (s : Store) (c : Cut) (r : ChanRec) (t : Store)
       rcases hput with ((h | h) | ⟨e, hes, h⟩) | ⟨l', ⟨⟨q, v⟩, _, rfl⟩, h⟩
       · exact absurd h.1 (by simp)
       · exact absurd h.1 (by simp)
-      · -- a system entry of the section = an entry of the source
-        have hsys : r.sys = s.filter (sysKeep c.ch c.hw) := by
+      · have hsys : r.sys = (s.filter (sysKeep c.ch c.hw)).map (clampRet c.hw) := by
           unfold exportCh at he
           split at he; · simp at he
           split at he; · simp at he
           split at he; · simp at he
           simp only [Option.some.injEq] at he; subst he; rfl
         rw [hsys] at hes
-        have hes' := (List.mem_filter.1 hes).1
-        obtain ⟨h1, h2⟩ := h
-        rw [show e = (e.1, e.2) from rfl, h1, h2] at hes'
-        exact hret l p m hes'
+        obtain ⟨e0, he0, hcl⟩ := List.mem_map.1 hes
+        have he0s := (List.mem_filter.1 he0).1
+        have heq : clampRet c.hw e0 = (Key.ret c.ch, Val.ret l p m) := by
+          rw [hcl]; exact Prod.ext h.1 h.2
+        apply clampRet_ret c.hw e0 c.ch l p m heq
+        intro l0 p0 m0 h0
+        rw [h0] at he0s
+        exact hret l0 p0 m0 he0s
       · simp only at h
         split at h
         · exact absurd h (ret_not_in_rowWrites _ _ _ _ _)
